@@ -416,7 +416,7 @@ def sampleStep (d : Option K) (e : Eff × Bool × (K → K) × Option K) : Optio
 /-! ## the hand-written effect table (what the driver executes; compared with the real object) -/
 
 def stripEffs : List Eff :=
-  [.setDx .one, .freshXY, .setLatcaled false, .clearRT .r, .clearRT .t]
+  [.setDx .one, .freshXY, .clearRT .r, .clearRT .t, .setLatcaled false]
 
 def latcalEffs (v : Val) : List Eff :=
   stripEffs ++ [.fillXY .x, .scale .x v, .fillXY .y, .scale .y v, .setDx v, .setLatcaled true]
